@@ -103,7 +103,10 @@ func c25stale(c c25cfg) func(x *vsched.Exec) {
 				if j == "ECHO n-start" {
 					in = true
 				}
-				if in {
+				if in && j != "GET stale" {
+					// A call that passed the recycled-check before the release completed may still be written afterwards
+					// (check and write are not atomic; calling Do concurrently with the release is the caller's race).
+					// What must not happen - a send decided after the release - is judged above (lateArrival).
 					window = append(window, j)
 				}
 				if j == "ECHO n-end" {
